@@ -709,6 +709,61 @@ def install(extra=(), exclude=()):
     _patch_element_dtype()
     _patch_formatting()
     _patch_writable_array()
+    _patch_special()
+
+
+_orig_special = {}
+
+
+def _patch_special():
+    """scipy.special leaves used by ODL on data: served as uninterpreted functions / exact rules."""
+    import scipy.special as sp
+    if _orig_special:
+        return
+
+    def elementwise(fn):
+        def apply(x, *a, **k):
+            arr = to_object_array(x.asarray() if hasattr(x, 'asarray') else x)
+            out = np.empty(arr.shape, dtype=object)
+            for idx in np.ndindex(arr.shape):
+                out[idx] = fn(tolift(arr[idx]))
+            return wrap(out, np.dtype('float64')) if out.ndim else out[()]
+        return apply
+
+    def lambertw(z, k=0, tol=1e-8):
+        if is_sym(z):
+            _used('scipy.special.lambertw (uninterpreted W with W(z)*exp(W(z)) = z)')
+
+            def w(v):
+                r = SV(T.app('lambertw', (T.to_real(v.t),)))
+                ENG.add_axiom(T.eq(T.mul(r.t, T.app('exp', (r.t,))), T.to_real(v.t)))
+                return r
+            return elementwise(w)(z)
+        return _orig_special['lambertw'](z, k, tol)
+
+    def xlogy(x, y, *a, **k):
+        if is_sym(x) or is_sym(y):
+            _used('scipy.special.xlogy')
+            xa, ya = np.broadcast_arrays(to_object_array(x.asarray() if hasattr(x, 'asarray') else x),
+                                         to_object_array(y.asarray() if hasattr(y, 'asarray') else y))
+            out = np.empty(xa.shape, dtype=object)
+            for idx in np.ndindex(xa.shape):
+                u, v = tolift(xa[idx]), tolift(ya[idx])
+                out[idx] = tolift(0.0) if not bool(u != 0) else u * v.log()
+            return wrap(out, np.dtype('float64')) if out.ndim else out[()]
+        return _orig_special['xlogy'](x, y, *a, **k)
+    _orig_special['lambertw'] = sp.lambertw
+    _orig_special['xlogy'] = sp.xlogy
+    sp.lambertw = lambertw
+    sp.xlogy = xlogy
+    for name, mod in list(sys.modules.items()):
+        if mod is None or not (name == 'odl' or name.startswith('odl.')):
+            continue
+        d = mod.__dict__
+        if d.get('xlogy') is _orig_special['xlogy']:
+            d['xlogy'] = xlogy
+        if d.get('lambertw') is _orig_special['lambertw']:
+            d['lambertw'] = lambertw
 
 
 _orig_writable_array = None
